@@ -15,4 +15,8 @@
 //@pin file=cfgrammar/src/lib/yacc/ast.rs fn=get_rule sha=3287f2f00d7e97fc
 //@pin file=cfgrammar/src/lib/yacc/ast.rs fn=unused_symbols sha=3d0d006d8a29898b
 //@pin file=cfgrammar/src/lib/yacc/grammar.rs fn=new_with_storaget sha=765ea3159713f061
+// RE_NAME (what counts as a name / a token in a grammar): a change is judged by the rendering sweep
+//@expect file=cfgrammar/src/lib/yacc/parser.rs re=`Regex::new\(r"\^\[a\-zA\-Z_\.\]\[a\-zA\-Z0\-9_\.\]\*"\)\.unwrap\(\)`
+// RE_TOKEN (what counts as a name / a token in a grammar): a change is judged by the rendering sweep
+//@expect file=cfgrammar/src/lib/yacc/parser.rs re=`Regex::new\("\^\(\?:\(\\"\.\+\?\\"\)\|\('\.\+\?'\)\|\(\[a\-zA\-Z_\]\[a\-zA\-Z_0\-9\]\*\)\)"\)\.unwrap\(\)`
 //@use prelude/tail.rs
